@@ -3,6 +3,7 @@ package main
 import (
 	"fmt"
 	"os"
+	"sort"
 	"strings"
 
 	"golang.org/x/tools/go/ssa"
@@ -258,6 +259,53 @@ func checkC07(w *World, r *Report) {
 			j := strings.Index(o.Construct, " : ")
 			return i >= 0 && j > i && onTree[o.Construct[i+3:j]]
 		})
+	}
+	// ---------- C07.guard (closed world over the rejecting conditions) ----------
+	// "any amount up to the sender's locked, undelegated coins can be split", whatever the schedule looks like: the
+	// instant and the sender's start and end enter the decision only through LockedCoins(now). No condition on the
+	// split / move trees that ends the operation with an error may depend on the block time or on the schedule's
+	// StartTime / EndTime in any other way (a guard "the new account must have a non-empty period" rejects accounts
+	// whose start equals their end although everything of theirs is still locked).
+	{
+		var hs []*ssa.Function
+		for _, a := range []string{"x/cfevesting/keeper.msgServer.SplitVesting", "x/cfevesting/keeper.msgServer.MoveAvailableVesting", "x/cfevesting/keeper.msgServer.MoveAvailableVestingByDenoms"} {
+			if h := w.Func(a); h != nil {
+				hs = append(hs, h)
+			}
+		}
+		st := w.Tracer()
+		st.Stop = []string{"LockedCoins", "GetVestingCoins", "GetVestedCoins"}
+		st.Opaque = map[string]bool{}
+		var fns []*ssa.Function
+		for f := range cg.Reach(hs) {
+			if w.isProdFunc(f) && moduleOfFunc(f) == "cfevesting" && !isGeneratedFile(w.FileOf(f.Pos())) && strings.Contains(pkgPathOf(f), "/keeper") {
+				fns = append(fns, f)
+			}
+		}
+		sort.Slice(fns, func(i, j int) bool { return funcName(fns[i]) < funcName(fns[j]) })
+		n, bad := 0, ""
+		for _, f := range fns {
+			for _, b := range f.Blocks {
+				i := blockIf(b)
+				if i == nil {
+					continue
+				}
+				t, fl := FailsFrom(b.Succs[0]), FailsFrom(b.Succs[1])
+				if t == fl {
+					continue
+				}
+				base, _ := stripNot(i.Cond)
+				if bo, ok := base.(*ssa.BinOp); ok && (isErrorType(bo.X.Type()) || isErrorType(bo.Y.Type())) {
+					continue
+				}
+				n++
+				o := st.Origins(base)
+				if o.HasCall("Context.BlockTime") || o.HasPath("ContinuousVestingAccount.StartTime") || o.HasPath("BaseVestingAccount.EndTime") || o.HasPath(".EndTime") || o.HasPath(".StartTime") {
+					bad = w.Pos(lastPos(b))
+				}
+			}
+		}
+		r.Check(n > 0 && bad == "", "C07.guard", "no rejecting condition of a split / move depends on the instant or the schedule except through LockedCoins(now)", w.Pos(split.Pos()), fmt.Sprintf("%d rejecting conditions on the trees, none of them reads the block time, StartTime or EndTime", n), "a split / move can be refused depending on the block time or the sender's schedule ("+bad+"): an amount within the locked, undelegated coins is not always splittable")
 	}
 	// ---------- C07.move ----------
 	tr := w.Tracer()
